@@ -54,7 +54,14 @@ func vWire(cs []*change.Change) []*change.Change {
 }
 
 // sync performs one PushPull of replica idx.
-func (s *vSrv) sync(idx int, d *Document) {
+func (s *vSrv) sync(idx int, d *Document) { s.syncBegin(idx, d)() }
+
+// syncBegin performs the request half of one PushPull (the pack is created,
+// serialised and stored, the response is computed) and returns the response
+// half (ApplyChangePack). client.pushPullChanges does not hold the document
+// between the two, and Document is mutex-guarded for exactly that reason, so
+// a local Update may run in between.
+func (s *vSrv) syncBegin(idx int, d *Document) func() {
 	req := d.CreateChangePack()
 	reqVV := d.VersionVector().DeepCopy()
 	initial := len(s.log)
@@ -89,9 +96,11 @@ func (s *vSrv) sync(idx int, d *Document) {
 	}
 	cp := change.NewCheckpoint(int64(len(s.log)), s.clientSeq[idx])
 	pack := change.NewPack(d.Key(), cp, pulled, minVV, nil)
-	if err := d.ApplyChangePack(pack); err != nil {
-		s.failed = true
-		zzvsym.Assert(false, "sync-no-error")
+	return func() {
+		if err := d.ApplyChangePack(pack); err != nil {
+			s.failed = true
+			zzvsym.Assert(false, "sync-no-error")
+		}
 	}
 }
 
